@@ -534,7 +534,7 @@ pub fn run(args: &Args) -> Report {
                     let (go, bad, data) = (&go, &bad, &data);
                     sc.spawn(move || {
                         while !go.load(std::sync::atomic::Ordering::Relaxed) {
-                            std::hint::spin_loop();
+                            crate::util::pause();
                         }
                         for _ in 0..k {
                             std::thread::yield_now();
@@ -578,7 +578,7 @@ pub fn run(args: &Args) -> Report {
                         let go = &go;
                         sc.spawn(move || {
                             while !go.load(std::sync::atomic::Ordering::SeqCst) {
-                                std::hint::spin_loop();
+                                crate::util::pause();
                             }
                             drop(x);
                         });
